@@ -19,7 +19,11 @@ variable {K : Type} [Add K] [Mul K] [Sub K] [Neg K] [Div K] [OfNat K 0] [OfNat K
 the factory call) raises: `NotImplementedError` of `Functional.proximal` for classes without a
 proximal, `ValueError` of `FunctionalLeftScalarMult.proximal` for a negative scalar, `TypeError`
 of `FunctionalQuadraticPerturb.proximal` for a negative quadratic coefficient.
-`lamF` is the fudged radius `float(1 * (1 - eps))` of `proximal_convex_conj_l1`. -/
+`lamF` is the fudged radius `float(1 * (1 - eps))` of `proximal_convex_conj_l1`.
+`FunctionalQuadraticPerturb` always stores a linear term (the zero element when none was given)
+and passes it as `u`; the wire sends a zero term as absent (`hasU = false`) and the model then
+uses the `u = None` form of `proximal_quadratic_perturbation`: `c·x − σ·c·0 = c·x` exactly, in
+floats as well. -/
 def Fn.toProx (lamF : K) : Fn (List K) K → Option (Prox.Fn K)
   | .coord .l1 => some (.l1 1 none)                 -- LpNorm.proximal: proximal_l1(space)
   | .coord .indLinf => some (.ccl1 lamF none)       -- IndicatorLpUnitBall: proximal_convex_conj_l1
